@@ -1606,6 +1606,15 @@ fn start_config(w: &World, r: &mut Rng, g: &mut GenCtx, vis: &[VInfo], ps: &[Pos
             //  (a) whitelisted, one unit above the holding cap (allowed), removed from the whitelist, increase
             g.plan.push_back(Plan::Config { vi, kind: CKind::WlSet(true), legit: true, trader });
             g.plan.push_back(Plan::TraderOp { vi, who: Who::Id(trader), op: TOp::OpenToHoldCap(1), block: Blk::Free });
+            // … while ANOTHER trader, who is not on the list, tries the same (refused): the exemption is the listed address's alone
+            // (in the deployments with long addresses david's address is bob's plus one character)
+            if trader == 102 {
+                g.plan.push_back(Plan::TraderOp { vi, who: Who::Id(104), op: TOp::OpenToHoldCap(1), block: Blk::Free });
+            } else if trader != 104 {
+                g.plan.push_back(Plan::Config { vi, kind: CKind::WlSet(true), legit: true, trader: 102 });
+                g.plan.push_back(Plan::TraderOp { vi, who: Who::Id(104), op: TOp::OpenToHoldCap(1), block: Blk::Free });
+                g.plan.push_back(Plan::Config { vi, kind: CKind::WlSet(false), legit: true, trader: 102 });
+            }
             g.plan.push_back(Plan::TraderOp { vi, who: Who::Id(trader), op: TOp::OpenSame, block: Blk::Free });
             g.plan.push_back(Plan::Config { vi, kind: CKind::WlSet(false), legit: true, trader });
             g.plan.push_back(Plan::TraderOp { vi, who: Who::Id(trader), op: TOp::OpenSame, block: Blk::Free });
